@@ -73,6 +73,13 @@ Theorem C15_display : forall a, amount_display a = amount_to_string_with_denomin
           signed_display a = signed_to_string_with_denomination a Monero.
 Proof. exact display_is_xmr. Qed.
 
+(* the specification is well-defined: a text denotes at most one quantity, an amount has exactly one expansion *)
+Theorem C15_denotes_functional : forall decs s q1 q2, denotes decs s q1 -> denotes decs s q2 -> q1 = q2.
+Proof. exact denotes_functional. Qed.
+
+Theorem C15_expansion_unique : forall decs a s1 s2, expansion decs a s1 -> expansion decs a s2 -> s1 = s2.
+Proof. exact expansion_unique. Qed.
+
 (* non-vacuity / sanity *)
 Example C15_ex_parse : amount_from_str_in (bs "1.5") Monero = AOk 1500000000000
   /\ signed_from_str_in (bs "-9223372.036854775807") Monero = AOk (- (2 ^ 63 - 1))
@@ -128,6 +135,8 @@ Check C15_roundtrip_suffix_signed : forall a d, - (2 ^ 63 - 1) <= a <= 2 ^ 63 - 
             forall al, In al (aliases d) -> signed_from_str (s ++ x20 :: al) = AOk a.
 Check C15_display : forall a, amount_display a = amount_to_string_with_denomination a Monero /\
           signed_display a = signed_to_string_with_denomination a Monero.
+Check C15_denotes_functional : forall decs s q1 q2, denotes decs s q1 -> denotes decs s q2 -> q1 = q2.
+Check C15_expansion_unique : forall decs a s1 s2, expansion decs a s1 -> expansion decs a s2 -> s1 = s2.
 
 Print Assumptions C15_parse_exact_unsigned.
 Print Assumptions C15_parse_exact_signed.
@@ -142,3 +151,5 @@ Print Assumptions C15_roundtrip_signed.
 Print Assumptions C15_roundtrip_suffix_unsigned.
 Print Assumptions C15_roundtrip_suffix_signed.
 Print Assumptions C15_display.
+Print Assumptions C15_denotes_functional.
+Print Assumptions C15_expansion_unique.
